@@ -11,6 +11,7 @@ import os
 import re
 import subprocess
 import sys
+import signal
 import time
 import traceback
 
@@ -26,17 +27,35 @@ def _init():
     sys.setrecursionlimit(40000)
 
 
+class SxTimeout(BaseException):
+    pass
+
+
 def sx_unit(job):
     kind, name = job
     repo, specs = _G["repo"], _G["specs"]
     t0 = time.time()
+    # symbolic execution has no solver in the loop that could time out: a changed body can make the number of paths
+    # explode.  The slowest unit on the reference tree takes about a minute; past the limit the unit is reported as
+    # an engine error (exit 3 unless the bounded battery shows a failing input), never as a verdict.
+    limit = int(os.environ.get("PYVC_SX_LIMIT", "600"))
+
+    def _too_long(signum, frame):
+        raise SxTimeout("symbolic execution of this unit exceeded %d s (path explosion?)" % limit)
+    old_handler = signal.signal(signal.SIGALRM, _too_long)
+    signal.alarm(limit)
     try:
         if kind == "contract":
             ur = run_contract(repo, specs, specs.contracts[name])
         else:
             ur = run_lemma(repo, specs, specs.lemmas[name])
+    except SxTimeout as e:
+        return {"name": name, "kind": kind, "error": "unsupported: %s" % e}
     except Exception as e:  # pragma: no cover
         return {"name": name, "kind": kind, "error": "engine: %s\n%s" % (e, traceback.format_exc()[-1200:])}
+    finally:
+        signal.alarm(0)
+        signal.signal(signal.SIGALRM, old_handler)
     cx = ur.cx
     out = {
         "name": ur.name, "kind": kind, "error": ur.error, "sx_time": round(time.time() - t0, 2),
@@ -197,6 +216,11 @@ def main(argv=None):
         ctx = mp.get_context("fork")
         with ctx.Pool(min(a.jobs, len(jobs)), initializer=_init) as pool:
             units = pool.map(sx_unit, jobs, chunksize=1)
+        # a unit that ran into the time limit is tried once more, alone (one such stall was seen on a loaded machine
+        # for a unit that normally takes seconds)
+        for k, u in enumerate(units):
+            if u.get("error") and "symbolic execution of this unit exceeded" in u["error"]:
+                units[k] = sx_unit(jobs[k])
     timeout_s = P.get("timeout", 10.0) * (3 if tier == "thorough" else 1)
     _bp = os.path.join(VERIF, "baseline", prop + ".json")
     _retry = frozenset(json.load(open(_bp))["clauses"]) if os.path.exists(_bp) else frozenset()
